@@ -43,7 +43,7 @@ def first_diff(a, b):
 
 def kinds_of(sx, acc):
     if isinstance(sx, list) and sx:
-        if isinstance(sx[0], str):
+        if isinstance(sx[0], str) and sx[0][:1].isalpha() and sx[0] not in ("params", "ann", "noann", "arm"):
             acc[sx[0]] = acc.get(sx[0], 0) + 1
         for y in sx[1:]:
             kinds_of(y, acc)
